@@ -132,6 +132,14 @@ def check(ctx):
         for o, a in produce(ctx, "d4", ["-mode", "d4", "-seed", ctx.seed + 1], shards):
             runner.run_job(ctx, _job(ctx, "d4", o, a))
             paths.append(o)
+        # last sentence of C13: built-in handlers only ever return nil together with stop
+        from . import fam_plugins
+        pa = ["-mode", "table", "-seed", ctx.seed]
+        pt = fam_plugins.produce(ctx, "table", pa)
+        runner.run_job(ctx, runner.TraceJob("builtin-nil-stop", "PluginsTrace", pt, {"Lens": core.tla_set(["C13"]), "Dev": core.tla_set([])},
+                                            chunk=30000, replay=fam_plugins._rerun(pa), boundary=lambda e: True))
+        extra["builtin_handler_calls"] = _count([pt], lambda e: e["ev"] == "h")
+        extra["builtin_nil_results"] = _count([pt], lambda e: e["ev"] == "h" and e["obs"]["nil"])
         extra["chains"] = _count(paths, lambda e: e["ev"] == "chain")
         extra["chains_stopped_early"] = _count(paths, lambda e: e["ev"] == "chain" and len(e["invoked"]) < len(e["bs"]))
         extra["loads"] = _count(paths, lambda e: e["ev"] == "load")
